@@ -229,7 +229,7 @@ fn gen_doc(g: &mut Gen, depth: usize) -> (String, String) {
       sig.push_str(&format!("(rule t {}{} {} {})\n", name, params.1, ops, s));
     }
     if g.next(4) == 0 {
-      text.push_str("; a comment\n\n");
+      text.push_str(";a-comment\n\n");
     }
   }
   (text, sig)
@@ -418,6 +418,28 @@ pub fn gen_text(seed: u64) -> String {
   gen_doc(&mut g, (seed % 3) as usize + 1).0
 }
 
+/// The same document in other layouts: some token separators (single spaces) replaced by CRLF, by a comment with
+/// multi-byte characters, by wide spacing or by blank lines.  The derivation, hence the signature, is unchanged.
+pub fn layouts(base: &str, seed: u64) -> Vec<String> {
+  let mut variants = vec![base.to_string()];
+  for (every, rep) in [(3usize, "\r\n"), (4, " ; c\u{20ac}\u{e9}\n\t"), (5, "   "), (2, "\n\n"), (1, " ;x\n ")] {
+    let mut out = String::new();
+    let mut k = seed as usize;
+    for ch in base.chars() {
+      if ch == ' ' {
+        k += 1;
+        if k % every == 0 {
+          out.push_str(rep);
+          continue;
+        }
+      }
+      out.push(ch);
+    }
+    variants.push(out);
+  }
+  variants
+}
+
 pub fn find(args: &[String]) -> i32 {
   let n: u64 = args.first().and_then(|s| s.parse().ok()).unwrap_or(3000);
   let mut tried = 0u64;
@@ -425,10 +447,12 @@ pub fn find(args: &[String]) -> i32 {
     let mut g = Gen { s: seed.wrapping_mul(0x2545_F491_4F6C_DD1D) ^ 0xC0DD1 };
     let depth = (seed % 3) as usize + 1;
     let (text, want) = gen_doc(&mut g, depth);
-    tried += 1;
-    if let Some(why) = check(&text, &want) {
-      println!("{{\"found\":true,\"tried\":{},\"witness\":{{\"seed\":{},\"doc\":{}}},\"real\":{}}}", tried, seed, jstr(&text), jstr(&why));
-      return 1;
+    for (li, doc) in layouts(&text, seed).into_iter().enumerate() {
+      tried += 1;
+      if let Some(why) = check(&doc, &want) {
+        println!("{{\"found\":true,\"tried\":{},\"witness\":{{\"seed\":{},\"layout\":{},\"doc\":{}}},\"real\":{}}}", tried, seed, li, jstr(&doc), jstr(&why));
+        return 1;
+      }
     }
   }
   println!("{{\"found\":false,\"tried\":{}}}", tried);
@@ -448,6 +472,8 @@ pub fn replay(args: &[String]) -> i32 {
   let seed = w["seed"].as_u64().unwrap();
   let mut g = Gen { s: seed.wrapping_mul(0x2545_F491_4F6C_DD1D) ^ 0xC0DD1 };
   let (text, want) = gen_doc(&mut g, (seed % 3) as usize + 1);
+  let li = w["layout"].as_u64().unwrap_or(0) as usize;
+  let text = layouts(&text, seed).into_iter().nth(li).unwrap_or(text);
   match check(&text, &want) {
     Some(why) => {
       println!("{{\"violates\":true,\"real\":{}}}", jstr(&why));
